@@ -267,10 +267,11 @@ class GroupStatusDecoder(
         return SensorBatteryStatus((byte3 & 0x80) >> 7)
 
     def _decode_temperature(self, has_sensor: bool, byte56: int) -> Optional[float]:  # noqa: FBT001
-        encoded_temperature = byte56 & 0xFFE0
-        if not has_sensor or encoded_temperature == _TEMP_UNAVAILABLE:
+        # The temperature is unavailable whenever byte 5 is 0xFF, regardless of
+        # the temperature bits in byte 6.
+        if not has_sensor or (byte56 & 0xFF00) == _TEMP_UNAVAILABLE:
             return None
-        return utils.decode_temperature(encoded_temperature)
+        return utils.decode_temperature(byte56 & 0xFFE0)
 
     def _decode_open_percentage(self, byte2: int) -> int:
         return byte2 & 0x7F
